@@ -42,6 +42,16 @@ trait Float: Sized {
         let adj = (n_signif_bits(quot) == add_bits) as usize;
         let mut rnd = ((quot & MASK_EXTRA_BITS[adj]) as u32) << adj as u32;
         rnd |= (rem != 0) as u32;
+        #[cfg(feature = "verif-hooks")]
+        {
+            use fpdec_core::verif;
+            if adj == 1 {
+                verif::hit(verif::TOFLOAT_ADJ);
+            }
+            if rnd == TIE {
+                verif::hit(verif::TOFLOAT_TIE);
+            }
+        }
         let signif = (quot >> (EXTRA_BITS - adj as u32)) as u64;
         let exp = den_lz as i32 - num_lz as i32 - adj as i32;
         // signif has the hidden bit set, so we must subtract 1 from the
